@@ -47,6 +47,8 @@ fn targets(all: bool) -> Vec<LVal> {
         arr("A$", &[int(2)]),
         arr("C", &[int(1), int(1)]),
         arr("C", &[int(1), int(11)]),
+        arr("C", &[int(1), int(12)]),
+        arr("C", &[int(11), int(2)]),
         arr("A1", &[int(2)]),
     ]);
     if all {
@@ -73,7 +75,7 @@ fn actions(all: bool) -> Vec<Stmt> {
             a.push(Stmt::Let(t.clone(), v));
         }
     }
-    for (n, b) in [("A", vec![int(3)]), ("A", vec![int(0)]), ("A$", vec![int(3)]), ("C", vec![int(2), int(12)]), ("A1", vec![int(1)])] {
+    for (n, b) in [("A", vec![int(3)]), ("A", vec![int(0)]), ("A$", vec![int(3)]), ("C", vec![int(12), int(12)]), ("A1", vec![int(1)])] {
         a.push(Stmt::Dim(vec![(n.to_string(), b)]));
     }
     if all {
@@ -141,6 +143,18 @@ fn probes(m: &Machine) -> Vec<Vec<Stmt>> {
         idxs.dedup();
         for i in idxs {
             second.push(PItem::E(Expr::Arr(name.clone(), i.iter().map(|x| int(*x)).collect())));
+            second.push(PItem::Semi);
+            second.push(PItem::E(strlit("|")));
+            second.push(PItem::Semi);
+        }
+    }
+    // every array element the alphabet can name (aliasing shows when the *other* element is read)
+    for t in targets(true) {
+        if let LVal::Arr(n, subs) = t {
+            if m.store.open.contains_key(&format!("{}()", n)) {
+                continue;
+            }
+            second.push(PItem::E(Expr::Arr(n, subs)));
             second.push(PItem::Semi);
             second.push(PItem::E(strlit("|")));
             second.push(PItem::Semi);
